@@ -162,8 +162,27 @@ _ABSTRACT_MAPPING: t.Mapping[type, type] = t.cast(t.Mapping[type, type], {
 """Mapping to attempt to choose a simple concrete type for abstract/base collection types"""
 
 
+class _TypeKey:
+    """
+    Identity key for a type object.
+
+    Holds a reference to the type, so its ``id`` can't be recycled
+    by another type while the key is alive inside the cache.
+    """
+    __slots__ = ('ty',)
+
+    def __init__(self, ty: t.Any):
+        self.ty = ty
+
+    def __hash__(self) -> int:
+        return id(self.ty)
+
+    def __eq__(self, other: t.Any) -> bool:
+        return isinstance(other, _TypeKey) and self.ty is other.ty
+
+
 def _make_converter_key_f(ty: IntoConverter, handlers: ConverterHandlers = ConverterHandlers()) -> t.Any:
-    return (id(ty), handlers)
+    return (_TypeKey(ty), handlers)
 
 
 @t.overload
